@@ -66,10 +66,12 @@ impl impl_details::CacheImplDetails for MemoryStore {
         if record.header.timestamp + (record.header.time_to_live as u64) > current_time {
             return false;
         }
-        match self.remove(key) {
-            Some(_) => true,
-            None => true,
-        }
+        // only collect the version that was judged, not a newer one stored meanwhile
+        self.memory.remove_if(key, |_key, stored| {
+            stored.header.cas == record.header.cas
+                && stored.header.timestamp == record.header.timestamp
+        });
+        true
     }
 }
 
